@@ -34,6 +34,7 @@ def execute(case):
     order = []              # reference: list of uids in coordinate order (maintained from the op arguments, independent of the class)
     queued = []             # reference multiset for the global queue: list of (prio, uid) - admissible-answer oracle
     lqueued = []
+    maybe_g, maybe_l = [], []      # entries that were stale when a request passed them: the implementation may or may not still hold them
 
     def qadd(q, p, u):
         q.append((p, u))
@@ -65,10 +66,12 @@ def execute(case):
                     qadd(queued, objs[hint].globalR, hint); qadd(lqueued, objs[hint].localR, hint)
             elif kind == 'clear':
                 sd.ClearQueue(); queued.clear(); results.append(('none',))
+                maybe_g.clear(); maybe_l.clear()
                 if dual:
                     lqueued.clear()
             elif kind == 'refill':
                 sd.RefillQueue(); queued.clear(); results.append(('none',))
+                maybe_g.clear(); maybe_l.clear()
                 for u in order:
                     qadd(queued, objs[u].globalR, u)
                 if dual:
@@ -112,12 +115,18 @@ def execute(case):
                         top = max(p for p, _ in q)
                         adm = [e for e in q if e[0] == top and e[0] == key(e[1])]
                         # stale entries of the same top priority may or may not have been discarded: remove those ahead lazily
+                        mb = maybe_g if kind == 'bestg' else maybe_l
                         if not any(e[1] == u for e in adm):
-                            fails.append('dual %s request returned item %d (R=%r); current entries of maximal priority %r: %r' % (kind, u, key(u), top, adm))
+                            # an entry that was stale at an earlier request may or may not have been discarded then (it depends on its position
+                            # among equal priorities); if the item's characteristic has meanwhile returned to the queued value it is current again
+                            if (key(u), u) in mb and key(u) >= top:
+                                mb.remove((key(u), u))
+                            else:
+                                fails.append('dual %s request returned item %d (R=%r); current entries of maximal priority %r: %r' % (kind, u, key(u), top, adm))
                         else:
                             q.remove(next(e for e in adm if e[1] == u))
                             for e in [e for e in q if e[0] == top and e[0] != key(e[1])]:
-                                q.remove(e)
+                                q.remove(e); mb.append(e)
                     else:
                         top = max(p for p, _ in q)
                         adm = [e for e in q if e[0] == top]
